@@ -43,6 +43,10 @@ def gen_weight(rng, fam):
     if fam == "huge":
         # beyond float64's 53-bit mantissa: any detour through floats rounds these
         return Fraction(rng.randint(1, 5) * 2**60 + rng.choice([0, 0, 1, -1, 3]))
+    if fam == "hugemix":
+        # a few equal huge weights (so that tallies tie exactly) next to unit-sized ones: score differences far below
+        # the float resolution of the totals (ulp(2^62) = 1024), which only exact arithmetic keeps apart
+        return Fraction(rng.choice([2**60, 2**60, 2**61, 10**18, 10**18, 1, 1, 2, 3]))
     raise ValueError(fam)
 
 
@@ -67,8 +71,8 @@ def gen_ranked_profile(rng, *, allow_ties=False, int_weights=False, min_c=1, max
     if n >= 7:
         max_ballots = max(max_ballots, 18)
     names, fam = gen_names(rng, n)
-    wfam = wchoice(rng, [("ones", 3), ("small", 4), ("mid", 3), ("big", 1), ("huge", 0.4)] + ([] if int_weights else [("rat", 3)]))
-    if unit_cap and wfam in ("big", "huge"):
+    wfam = wchoice(rng, [("ones", 3), ("small", 4), ("mid", 3), ("big", 1), ("huge", 0.4), ("hugemix", 0.5)] + ([] if int_weights else [("rat", 3)]))
+    if unit_cap and wfam in ("big", "huge", "hugemix"):
         wfam = "mid"
     law = wchoice(rng, [("mixed", 5), ("full", 3), ("bullet", 2), ("sym", 2)])
     if tie_bias and rng.random() < tie_bias:
@@ -184,7 +188,33 @@ def gen_score_profile(rng, L, k, n, *, max_ballots=8, rational=True):
 TIEBREAKS = [None, "random", "borda", "first_place"]
 
 
-def gen_rule_case(rng, rules=ALL_RULES, *, max_c=6, tiebreaks=TIEBREAKS, tie_bias=0.0, pairwise_ties=False):
+def gen_subulp_profile(rng, names):
+    """A set T of candidates made exactly level at a huge weight W (every rotation of T heads one ballot of weight W, so
+    first-place and Borda totals of T agree to the last digit), plus a few unit-sized ballots that separate their scores by
+    far less than the float resolution of the totals (ulp(2^62) = 1024): only exact arithmetic orders them."""
+    n = len(names)
+    t = rng.randint(2, min(3, n))
+    T = rng.sample(names, t)
+    rest = [c for c in names if c not in T]
+    W = rng.choice([2**60, 10**18, 3 * 2**59, 2**62])
+    bs = []
+    for i in range(t):
+        rot = T[i:] + T[:i]
+        tail = rng.sample(rest, rng.randint(0, len(rest)))
+        bs.append(([[c] for c in rot + tail], W))
+    if rest and rng.random() < 0.5:
+        o = rng.choice(rest)
+        others = [c for c in names if c != o]
+        bs.append(([[o]] + [[c] for c in rng.sample(others, rng.randint(0, len(others)))], rng.choice([W // 2, W, 2 * W])))
+    for _ in range(rng.randint(1, 3)):
+        first = rng.choice(rest) if rest and rng.random() < 0.7 else rng.choice(names)
+        others = [c for c in names if c != first]
+        bs.append(([[first]] + [[c] for c in rng.sample(others, rng.randint(0, len(others)))], rng.randint(1, 3)))
+    rng.shuffle(bs)
+    return {"candidates": list(names), "ballots": [{"r": r, "w": fs(Fraction(w))} for r, w in bs]}
+
+
+def gen_rule_case(rng, rules=ALL_RULES, *, max_c=6, tiebreaks=TIEBREAKS, tie_bias=0.0, pairwise_ties=False, subulp=0.02):
     """-> case dict {rule, kw, profile, shape}.  Only configurations the rule documents."""
     rule = rng.choice(list(rules))
     cfg = {}
@@ -248,6 +278,11 @@ def gen_rule_case(rng, rules=ALL_RULES, *, max_c=6, tiebreaks=TIEBREAKS, tie_bia
         cfg = {"m": m}
     elif rule == "PluralityVeto":
         cfg = {"m": m, "tiebreak": rng.choice(["random", "borda", "first_place"]) if allow_ties else rng.choice([None, "random"])}
+    if subulp and n >= 3 and "tiebreak" in cfg and rule != "PluralityVeto" and transfer != "random" and rng.random() < subulp:
+        jp = gen_subulp_profile(rng, jp["candidates"])
+        if set(tiebreaks) & {"borda", "first_place"}:
+            cfg["tiebreak"] = rng.choice(sorted(set(tiebreaks) & {"borda", "first_place"}))
+        shape = dict(shape, law="subulp", wfam="hugemix", nb=len(jp["ballots"]), ghosts=0, zero_w=0, eps=False)
     return {"rule": rule, "kw": cfg, "profile": jp, "shape": shape}
 
 
